@@ -25,6 +25,7 @@
 #include "csg/src/libcsg/beadlist.cc"
 #include "csg/src/libcsg/nblist.cc"
 #include "csg/src/libcsg/nblistgrid.cc"
+#include "csg/src/libcsg/nblist_3body.cc"
 #undef private
 #undef protected
 using namespace votca::csg;
@@ -70,6 +71,37 @@ H long h_pairs(long grid, long n, const double* pos, const double* box, double c
   } catch (...) { return -1; }
 }
 
+// three-body search on n beads with one-letter types (types[i]); variant: 1 = one list (type t1), 2 = two lists (t1; t2),
+// 3 = three separately generated lists (t1; t2; t3) -- which may hold the same beads when type names coincide.
+// triples out: ids[3k..3k+2] = (centre, second, third); sc[4*(i*n+j)] = shortest connection pos_i -> pos_j and norm, all ordered i != j
+H long h_triples(long n, const double* pos, const double* box, double cutoff, const long* types, long variant, long t1, long t2, long t3, long* ids, long cap, double* sc) {
+  try {
+    Topology top;
+    Eigen::Matrix3d m; for (int i = 0; i < 3; i++) for (int j = 0; j < 3; j++) m(i, j) = box[3 * i + j];
+    top.setBox(m);
+    top.CreateResidue("RES");
+    for (long i = 0; i < n; i++) {
+      std::string ty(1, (char)types[i]);
+      if (!top.BeadTypeExist(ty)) top.RegisterBeadType(ty);
+      Bead* b = top.CreateBead(Bead::spherical, ty, ty, 0, 1.0, 0.0);
+      b->setPos(Eigen::Vector3d(pos[3 * i], pos[3 * i + 1], pos[3 * i + 2]));
+      b->setMoleculeId(i);
+    }
+    BeadList l1, l2, l3;
+    l1.Generate(top, std::string(1, (char)t1)); l2.Generate(top, std::string(1, (char)t2)); l3.Generate(top, std::string(1, (char)t3));
+    NBList_3Body nb; nb.setCutoff(cutoff);
+    if (variant == 1) nb.Generate(l1, false); else if (variant == 2) nb.Generate(l1, l2, false); else nb.Generate(l1, l2, l3, false);
+    for (long i = 0; i < n; i++) for (long j = 0; j < n; j++) if (i != j) {
+      Eigen::Vector3d v = top.BCShortestConnection(top.getBead(i)->getPos(), top.getBead(j)->getPos());
+      for (int c = 0; c < 3; c++) sc[4 * (i * n + j) + c] = v[c];
+      sc[4 * (i * n + j) + 3] = v.norm();
+    }
+    long k = 0;
+    for (BeadTriple* t : nb) { if (k < cap) { ids[3 * k] = t->bead1()->getId(); ids[3 * k + 1] = t->bead2()->getId(); ids[3 * k + 2] = t->bead3()->getId(); } k++; }
+    return k;
+  } catch (...) { return -1; }
+}
+
 // exclusions from bonded interactions: 4 beads in one molecule (a 5th in another); interactions: an angle (a,b,c) and a bond (d,e),
 // handed to CreateExclusions in the order given by angle_first; out[5*i+j] = IsExcluded(i,j)
 H long h_create_excl(long a, long b, long c, long d, long e, long angle_first, long* out) {
@@ -101,6 +133,15 @@ int main(int argc, char** argv) {
     printf("RESULT %ld", k);
     for (long i = 0; i < k && i < 32; i++) printf(" %ld %ld %.12g %.12g %.12g %.12g", ids[2 * i], ids[2 * i + 1], rs[4 * i], rs[4 * i + 1], rs[4 * i + 2], rs[4 * i + 3]);
     printf("\n"); return 0;
+  }
+  if (!strcmp(argv[1], "triples")) {
+    int a = 2; long n = atol(argv[a++]), variant = atol(argv[a++]), t1 = atol(argv[a++]), t2 = atol(argv[a++]), t3 = atol(argv[a++]); double cutoff = atof(argv[a++]);
+    double box[9], pos[30], sc[400]; long types[10], ids[96];
+    for (int i = 0; i < 9; i++) box[i] = atof(argv[a++]);
+    for (long i = 0; i < 3 * n; i++) pos[i] = atof(argv[a++]);
+    for (long i = 0; i < n; i++) types[i] = atol(argv[a++]);
+    long k = h_triples(n, pos, box, cutoff, types, variant, t1, t2, t3, ids, 32, sc);
+    printf("RESULT %ld", k); for (long i = 0; i < 3 * k && i < 96; i++) printf(" %ld", ids[i]); printf("\n"); return 0;
   }
   if (!strcmp(argv[1], "excl")) {
     long out[25]; long rc = h_create_excl(atol(argv[2]), atol(argv[3]), atol(argv[4]), atol(argv[5]), atol(argv[6]), atol(argv[7]), out);
